@@ -92,7 +92,16 @@ def describe(fs):
 def rebuild(dadi, d):
     data = np.array(d['data']['data'], dtype=float).reshape(d['data']['shape']) if isinstance(d['data'], dict) else np.array(d['data'], dtype=float)
     mask = np.array(d['mask']['data']).reshape(d['mask']['shape']).astype(bool) if isinstance(d['mask'], dict) else np.array(d['mask']).astype(bool)
-    return dadi.Spectrum(data, mask=mask, mask_corners=False, data_folded=bool(d['folded']), check_folding=False, pop_ids=d['pop_ids'])
+    return with_mask(dadi.Spectrum(data, mask=mask, mask_corners=False, data_folded=bool(d['folded']), check_folding=False,
+                                   pop_ids=d['pop_ids']), mask)
+
+def with_mask(fs, mask):
+    """`fs` with exactly this mask: written after construction, so that the generators, `restore` and `rebuild` hand the oracles the
+    spectrum they describe whatever the constructor does to the mask it is given (that is under test, not assumed)"""
+    mask = np.asarray(mask, dtype=bool)
+    if not np.array_equal(np.ma.getmaskarray(fs), mask):
+        fs.mask = mask.copy()
+    return fs
 
 def same_spec(impl, model, rtol=1e-9):
     """impl: Spectrum (or masked array), model: parsed spec.  -> (ok, reason)"""
@@ -190,8 +199,8 @@ def gen_folded(rng, dadi, d, tier, parity=None):
             extra, _ = gen_mask(rng, fs.shape, 'random10')
             f.mask = np.logical_or(f.mask, extra); info['folded_kind'] = 'proper+masked'
     else:
-        f = dadi.Spectrum(fs.data.copy(), mask=np.ma.getmaskarray(fs).copy(), mask_corners=False, data_folded=True,
-                          check_folding=False, pop_ids=fs.pop_ids); info['folded_kind'] = 'declared'
+        f = with_mask(dadi.Spectrum(fs.data.copy(), mask=np.ma.getmaskarray(fs).copy(), mask_corners=False, data_folded=True,
+                                    check_folding=False, pop_ids=fs.pop_ids), np.ma.getmaskarray(fs)); info['folded_kind'] = 'declared'
     return f, info
 
 # ------------------------------------------------------------------ operands survive (before / after)
@@ -240,8 +249,8 @@ def survives(chk, key, what, inp, items):
 def restore(dadi, st):
     """a fresh object with the snapshotted content"""
     if st['type'] == 'Spectrum':
-        return dadi.Spectrum(st['data'].copy(), mask=st['mask'].copy(), mask_corners=False, data_folded=bool(st['folded']),
-                             check_folding=False, pop_ids=None if st['pop_ids'] is None else list(st['pop_ids']))
+        return with_mask(dadi.Spectrum(st['data'].copy(), mask=st['mask'].copy(), mask_corners=False, data_folded=bool(st['folded']),
+                                       check_folding=False, pop_ids=None if st['pop_ids'] is None else list(st['pop_ids'])), st['mask'])
     if st['mask'] is not None:
         return np.ma.masked_array(st['data'].copy(), mask=st['mask'].copy())
     return st['data'].copy()
@@ -522,11 +531,32 @@ def l3_arith(chk, ctx, name, fs, other, okind, info):
     if r.folded is not fs.folded and r.folded != fs.folded:
         chk.fail('arith:%s:folded' % name, 'folded status %r -> %r' % (fs.folded, r.folded), inp)
     if not np.array_equal(np.ma.getmaskarray(r), m0 | om):
-        chk.fail('arith:%s:mask' % name, 'mask is not the union of the operand masks', inp)
+        rm_ = np.ma.getmaskarray(r); k_ = np.argwhere(rm_ != (m0 | om))
+        chk.fail('arith:%s:mask' % name, 'mask is not the union of the operand masks (%d masked entries, union has %d; first difference at %s)'
+                 % (int(rm_.sum()), int((m0 | om).sum()), k_[0].tolist()), inp)
     if fin.any():
         sc = max(1.0, np.abs(exp[fin]).max())
         if np.abs(np.asarray(r.data)[fin] - exp[fin]).max() > 1e-9 * sc:
             chk.fail('arith:%s:data' % name, 'data is not the pointwise result on the operands\' data', inp)
+    # a binary operator and its in-place twin (`a + b` / `a += b`) give the same data, mask and folding status
+    twin = '__i%s__' % base
+    if not inplace and not refl and twin in SYNTAX:
+        chk.l3(('arith-twin', name, okind, bool(fs.folded)))
+        t = fs.copy()
+        try:
+            with np.errstate(all='ignore'):
+                rt = SYNTAX[twin][0](t, other)
+        except Exception as e:
+            chk.fail('arith:%s:inplace-twin:raises:%s' % (name, type(e).__name__), '%s works but %s raises %r' % (name, twin, e), inp); rt = None
+        if rt is not None:
+            if not np.array_equal(np.ma.getmaskarray(rt), np.ma.getmaskarray(r)):
+                k = np.argwhere(np.ma.getmaskarray(rt) != np.ma.getmaskarray(r))
+                chk.fail('arith:%s:inplace-twin:mask' % name, '%s and %s give different masks (%d vs %d masked entries, first difference at %s)'
+                         % (name, twin, int(np.ma.getmaskarray(r).sum()), int(np.ma.getmaskarray(rt).sum()), k[0].tolist()), inp)
+            elif fin.any() and np.abs(np.asarray(rt.data)[fin] - np.asarray(r.data)[fin]).max() > 1e-9 * max(1.0, np.abs(exp[fin]).max()):
+                chk.fail('arith:%s:inplace-twin:data' % name, '%s and %s give different data' % (name, twin), inp)
+            if rt.folded is not r.folded and rt.folded != r.folded:
+                chk.fail('arith:%s:inplace-twin:folded' % name, '%s gives folded=%r, %s folded=%r' % (name, r.folded, twin, rt.folded), inp)
     # labels: those of the operand whose method runs (the left Spectrum), else the other's
     first, second = (other, fs) if (swapped and okind == 'S') else (fs, other if okind == 'S' else None)
     want_ids = first.pop_ids if first.pop_ids is not None else (second.pop_ids if second is not None else None)
@@ -569,6 +599,17 @@ def l3_unary(chk, ctx, fs, info):
         rm = np.ma.getmaskarray(r); m = np.ma.getmaskarray(fs)
         if (nm != 'log' and not np.array_equal(rm, m)) or (nm == 'log' and (m & ~rm).any()):
             chk.fail('unary:%s:mask' % nm, '%s loses mask entries' % nm, inp)
+        elif nm == 'log':
+            # the mask SURVIVES log(): exactly the operand's mask plus the entries where the logarithm does not exist (x <= 0, which
+            # numpy.ma.log masks) — nothing else (corners, entries beyond the fold, … stay as the operand has them)
+            xd = np.asarray(fs.data, dtype=float)
+            want = m | ~(xd > 0) | ~np.isfinite(xd)
+            chk.l3(('unary-log-exact', info['d'], bool(fs.folded), bool(m.flat[0]) if m.size else None, bool(m.flat[-1]) if m.size else None))
+            if not np.array_equal(rm, want):
+                k = np.argwhere(rm != want)
+                chk.fail('unary:log:mask-exact', 'log(): %d entries are masked in the result although they are unmasked in the operand and '
+                         'positive (first at %s; %d masked in the operand, %d in the result)'
+                         % (int((rm & ~want).sum()), k[0].tolist(), int(m.sum()), int(rm.sum())), inp)
         if nm in ('copy', 'deepcopy', 'log'):
             # (-fs, +fs, abs(fs) go through numpy.ma's unary ufunc wrapper, which hands the operand's mask buffer to the
             #  result by design of numpy.ma — observed on the unchanged tree, not dadi code, not checked here)
@@ -992,7 +1033,7 @@ def gen_operand(rng, dadi, fs, okind, mismatch=False, op=None):
     folded = (not fs.folded) if mismatch else bool(fs.folded)
     r = rng.random()
     ids = fs.pop_ids if r < 0.5 else (None if r < 0.75 else ['q%d' % k for k in range(d)])
-    return dadi.Spectrum(vals(), mask=m, mask_corners=False, data_folded=folded, check_folding=False, pop_ids=ids)
+    return with_mask(dadi.Spectrum(vals(), mask=m, mask_corners=False, data_folded=folded, check_folding=False, pop_ids=ids), m)
 
 def operand_toks(o, okind):
     if okind == 'C': return 'C ' + rat(o)
@@ -1011,6 +1052,223 @@ def prep_self_for(rng, fs, base, refl, inplace):
     elif base == 'truediv' and refl:
         out.data[out.data == 0] = 2.0
     return out
+
+# ------------------------------------------------------------------ every spectrum the API can produce (round 7)
+def beyond_fold(shape):
+    """entries that carry no information in a folded spectrum of this shape"""
+    tot = np.indices(shape).sum(axis=0) if len(shape) else np.zeros((), dtype=int)
+    return tot > (int(sum(shape)) - len(shape)) // 2
+
+DERIVATIONS = ['whole', 'leading', 'trailing', 'strided', 'inner', 'two-axes', 'row', 'unmask_all', 'corners-open', 'beyond-fold-open',
+               'slice+unmask_all', 'ctor-mask_corners=False']
+
+def gen_derivation(rng, dadi, shape, labelled, kind):
+    """one way the API hands out a spectrum that is not a whole, canonically masked one: -> (kind actually used, function fs -> spectrum).
+    The same function can be applied to a model and a data spectrum of the same shape.  Slices are VIEWS (not copied).
+    `row` (an integer index) only for unlabelled spectra: a row keeps ALL labels of its parent, and the constructor itself refuses a
+    1-D spectrum with two labels — such an object is not a spectrum the constructor can produce."""
+    d = len(shape)
+    if kind == 'row' and (d < 2 or labelled): kind = 'leading'
+    ax = int(rng.integers(d)); n = shape[ax]
+    def on(axsl):
+        return tuple(axsl.get(a, slice(None)) for a in range(d))
+    def opened(f_mask):
+        def g(s_):
+            c = s_.copy(); m = np.ma.getmaskarray(c).copy(); f_mask(m); c.mask = m
+            return c
+        return g
+    if kind == 'whole': return kind, (lambda s_: s_)
+    if kind == 'leading':
+        idx = on({ax: slice(None, int(rng.integers(1, n + 1)))}); return kind, (lambda s_: s_[idx])
+    if kind == 'trailing':
+        idx = on({ax: slice(int(rng.integers(0, n)), None)}); return kind, (lambda s_: s_[idx])
+    if kind == 'strided':
+        idx = on({ax: slice(None, None, int(rng.choice([2, 3, -1, -2])))}); return kind, (lambda s_: s_[idx])
+    if kind == 'inner':
+        idx = tuple(slice(1, -1) if m_ >= 3 else slice(None) for m_ in shape); return kind, (lambda s_: s_[idx])
+    if kind == 'two-axes':
+        ax2 = (ax + 1) % d
+        sel = {ax: slice(None, int(rng.integers(1, n + 1)))}
+        sel[ax2] = slice(int(rng.integers(0, shape[ax2])), None) if ax2 != ax else sel[ax]
+        idx = on(sel); return kind, (lambda s_: s_[idx])
+    if kind == 'row':
+        idx = on({ax: int(rng.integers(-n, n))}); return kind, (lambda s_: s_[idx])
+    if kind == 'unmask_all':
+        def g(s_):
+            c = s_.copy(); c.unmask_all(); return c
+        return kind, g
+    if kind == 'corners-open':
+        def f_(m): m.flat[0] = False; m.flat[-1] = False
+        return kind, opened(f_)
+    if kind == 'beyond-fold-open':
+        sel = rng.random(shape) < 0.6; bf = beyond_fold(shape)
+        if not (sel & bf).any(): sel = np.ones(shape, dtype=bool)
+        def f_(m): m[sel & bf] = False
+        return kind, opened(f_)
+    if kind == 'slice+unmask_all':
+        idx = on({ax: slice(None, int(rng.integers(1, n + 1)))})
+        def g(s_):
+            c = s_[idx].copy(); c.unmask_all(); return c
+        return kind, g
+    if kind == 'ctor-mask_corners=False':
+        def g(s_):
+            m = np.ma.getmaskarray(s_).copy(); m.flat[0] = False; m.flat[-1] = False
+            return with_mask(dadi.Spectrum(np.array(s_.data, copy=True), mask=m, mask_corners=False, data_folded=bool(s_.folded),
+                                           check_folding=False, pop_ids=s_.pop_ids), m)
+        return kind, g
+    raise ValueError(kind)
+
+def arith_case(chk, ctx, rng, name, okind, fs0, info, derive=None):
+    """one template method x operand kind on `fs0` (or on the spectrum `derive` makes of it): L3 by operator syntax, K by direct call"""
+    dadi = ctx['dadi']; driver = ctx['driver']
+    base, refl, inplace = method_parts(name)
+    base_np = 'truediv' if base == 'div' else base
+    fs = prep_self_for(rng, fs0, base_np, refl, inplace)
+    if derive is not None:
+        fs = derive(fs)
+        if fs.size == 0 or np.ndim(fs) == 0:
+            chk.stat('derived:empty-skipped'); return
+    mismatch = okind == 'Sx'
+    ok_ = 'S' if mismatch else okind
+    other = gen_operand(rng, dadi, fs, ok_, mismatch, base_np)
+    if base_np in ('truediv', 'floordiv') and not refl and ok_ != 'C':
+        od = other.data if ok_ in 'SM' else other
+        od[od == 0] = 1.0
+    chk.stat('arith:operand:' + okind)
+    inp = dict(method=name, fs=describe(fs), other_kind=okind,
+               other=describe(other) if ok_ == 'S' else (float(other) if ok_ == 'C' else dict(
+                   data=np.asarray(getattr(other, 'data', other), dtype=float), mask=np.ma.getmaskarray(other).astype(int))))
+    guarded(chk, 'arith:' + name, inp, l3_arith, chk, ctx, name, fs, other, ok_, info)
+    tgt = fs.copy()
+    line = 'c09.%s %s %s %s' % ('inplace' if inplace else 'binop', name, fs_toks(fs), operand_toks(other, ok_))
+    k_compare(chk, ('inplace:' if inplace else 'binop:') + name, inp, lambda: getattr(tgt, name)(other), line, driver)
+    if inplace:
+        k_inplace_self(chk, 'inplace-self:' + name, name, fs, tgt, other, ok_, inp, driver)
+
+def k_ctor(chk, ctx, rng, tier):
+    """`Spectrum(data, mask, mask_corners, data_folded, check_folding)` on plain arrays vs the model's `ctorSpec` (whose `data_folded`
+    block is the generated `ctor_selfMaskAfter` / `ctor_selfDataAfter`); and L3: the constructor keeps the data and the mask it is
+    given, plus the two corners iff mask_corners — for every shape (also shapes that are slices of a folded spectrum)"""
+    dadi = ctx['dadi']; driver = ctx['driver']
+    for folded in (False, True):
+        for mc in (False, True):
+            for cf in (False, True):
+                d = int(rng.integers(1, 5)); shape = gen_shape(rng, d, tier)
+                data, _ = gen_data(rng, shape); mask, mk = gen_mask(rng, shape)
+                ids = gen_ids(rng, d)
+                inp = dict(shape=list(shape), data=data, mask=mask.astype(int), folded=folded, pop_ids=ids, mask_corners=mc, check_folding=cf)
+                chk.l3(('ctor', folded, mc, cf, mk))
+                try:
+                    r = dadi.Spectrum(data.copy(), mask=mask.copy(), mask_corners=mc, data_folded=folded, check_folding=cf, pop_ids=ids)
+                except Exception as e:
+                    chk.fail('ctor:raises:%s' % type(e).__name__, 'Spectrum(...) raises %r' % (e,), inp); continue
+                want = mask.copy()
+                if mc: want.flat[0] = True; want.flat[-1] = True
+                rm = np.ma.getmaskarray(r)
+                if not np.array_equal(rm, want):
+                    chk.fail('ctor:mask', 'Spectrum(data, mask=m, mask_corners=%r, data_folded=%r, check_folding=%r): the mask of the result is not m%s '
+                             '(%d entries masked, expected %d; first difference at %s)' % (mc, folded, cf, ' plus the two corners' if mc else '',
+                             int(rm.sum()), int(want.sum()), np.argwhere(rm != want)[0].tolist()), inp)
+                if not np.array_equal(np.asarray(r.data), data) or r.folded is not folded or r.pop_ids != ids:
+                    chk.fail('ctor:content', 'Spectrum(...): data / folded / pop_ids are not what was passed', inp)
+                kind, val = ask(driver, 'c09.ctor %d %s' % (mc, spec_toks(data, mask, folded, ids)))
+                if kind != 'ok' or not isinstance(val, dict):
+                    chk.k_bad('ctor', inp, describe(r), val, None); continue
+                ok, why = same_spec(r, val)
+                if ok: chk.k_ok('ctor')
+                else: chk.k_bad('ctor', inp, describe(r), why, None)
+
+LLM_PER_BIN = ['ll_per_bin', 'll_multinom_per_bin', 'linear_Poisson_residual', 'Anscombe_Poisson_residual']
+
+def gen_llmask_case(rng, dadi, d, tier, fkind, dkind):
+    """model and data of the SAME folding status (no automatic folding involved), both derived the same way; model > 0 wherever it is
+    meaningful, data >= 1 there; masks of model and data drawn independently, corners open or not"""
+    shape = gen_shape(rng, d, tier)
+    ids = gen_ids(rng, d)
+    mm, mmk = gen_mask(rng, shape, MODEL_MASKS[int(rng.integers(len(MODEL_MASKS)))])
+    dm, dmk = gen_mask(rng, shape, ['none', 'corners', 'random10', 'single', 'one-corner', 'none'][int(rng.integers(6))])
+    mdata = rng.uniform(0.5, 5, shape); ddata = rng.poisson(3.0, shape).astype(float) + 1.0
+    S = dadi.Spectrum
+    if fkind == 'unfolded':
+        model = S(mdata, mask=mm, mask_corners=False, pop_ids=ids); data = S(ddata, mask=dm, mask_corners=False, pop_ids=ids)
+    elif fkind == 'proper':
+        model = S(mdata, mask=mm, mask_corners=False, pop_ids=ids).fold(); data = S(ddata, mask=dm, mask_corners=False, pop_ids=ids).fold()
+    else:
+        model = with_mask(S(mdata, mask=mm, mask_corners=False, data_folded=True, check_folding=False, pop_ids=ids), mm)
+        data = with_mask(S(ddata, mask=dm, mask_corners=False, data_folded=True, check_folding=False, pop_ids=ids), dm)
+    kind, f = gen_derivation(rng, dadi, shape, ids is not None, dkind)
+    return f(model), f(data), dict(d=d, folding=fkind, derivation=kind, model_mask=mmk, data_mask=dmk)
+
+def l3_llmask(chk, ctx, model, data, info):
+    """masks survive likelihood evaluation: a bin is dropped iff it is masked in the model or in the data (or the model is not
+    positive there, where the Poisson likelihood does not exist) — for whole spectra, slices, opened masks, open corners alike"""
+    dadi = ctx['dadi']; I = dadi.Inference
+    from scipy.special import gammaln
+    inp = dict(model=describe(model), data=describe(data))
+    if model.size == 0 or np.ndim(model) == 0:
+        chk.stat('llmask:empty-skipped'); return
+    M = np.ma.getmaskarray(model).copy(); D = np.ma.getmaskarray(data).copy()
+    md = np.array(model.data, dtype=float); dd = np.array(data.data, dtype=float)
+    want_mask = M | D | ~(md > 0)
+    keep = ~want_mask
+    st_m, st_d = state(model), state(data)
+    def call(f, *a):
+        with np.errstate(all='ignore'), contextlib.redirect_stdout(io.StringIO()):
+            return f(*a)
+    if not keep.any():
+        # no bin is unmasked in both: the optimal scaling (masked / masked) and with it the multinomial family are not defined
+        # (same rule as gen_likelihood_case)
+        chk.stat('llmask:no-jointly-unmasked-bin-skipped'); return
+    corners_open = bool(keep.flat[0]) or bool(keep.flat[-1])
+    chk.stat('llmask:' + info['folding'] + ':' + info['derivation']); chk.stat('llmask:corner-bin-in-play:%s' % corners_open)
+    for nm in LLM_PER_BIN:
+        chk.l3(('llmask', nm, info['folding'], info['derivation'], corners_open))
+        try:
+            r = call(getattr(I, nm), model, data)
+        except Exception as e:
+            chk.fail('llmask:%s:raises:%s' % (nm, type(e).__name__), '%s(model, data) raises %r (%s spectra, %s)' % (nm, e, info['folding'], info['derivation']), inp)
+            continue
+        rm = np.ma.getmaskarray(r)
+        if tuple(rm.shape) == tuple(M.shape) and nm != 'll_per_bin':
+            # where the model is not positive (entries beyond the fold of a fold() result whose mask was opened: model = data = 0) the
+            # residuals are 0/0; what the functions make of such a bin is not part of the property — compared on the other bins
+            rm = np.where(md > 0, rm, want_mask)
+        if tuple(rm.shape) != tuple(M.shape) or not np.array_equal(rm, want_mask):
+            k = np.argwhere(rm != want_mask) if tuple(rm.shape) == tuple(M.shape) else [[]]
+            chk.fail('llmask:%s:mask' % nm, '%s(model, data) on %s spectra (%s): the mask of the result is not model.mask | data.mask — %d bins '
+                     'are dropped although unmasked in both and %d kept although masked (first at %s)'
+                     % (nm, info['folding'], info['derivation'], int((rm & ~want_mask).sum()), int((~rm & want_mask).sum()), list(k[0])), inp)
+        if getattr(r, 'folded', None) is not data.folded and getattr(r, 'folded', None) != data.folded:
+            chk.fail('llmask:%s:folded' % nm, '%s: result has folded=%r, model and data have %r' % (nm, getattr(r, 'folded', None), data.folded), inp)
+        if nm == 'll_per_bin' and keep.any() and tuple(rm.shape) == tuple(M.shape):
+            want = -md[keep] + dd[keep] * np.log(md[keep]) - gammaln(dd[keep] + 1.)
+            got = np.asarray(r.data)[keep]
+            if np.abs(got - want).max() > 1e-9 * max(1.0, np.abs(want).max()):
+                chk.fail('llmask:ll_per_bin:value', 'll_per_bin: an unmasked bin is not the Poisson log-probability of the data bin given the model bin', inp)
+    if keep.any():
+        chk.l3(('llmask', 'll', info['folding'], info['derivation'], corners_open))
+        want_ll = float(np.sum(-md[keep] + dd[keep] * np.log(md[keep]) - gammaln(dd[keep] + 1.)))
+        both = ~(M | D)
+        try:
+            got_ll = float(call(I.ll, model, data))
+            if abs(got_ll - want_ll) > 1e-9 * max(1.0, abs(want_ll)):
+                chk.fail('llmask:ll:value', 'll(model, data) = %r on %s spectra (%s), the sum of the Poisson log-probabilities over the %d bins that are '
+                         'unmasked in both is %r' % (got_ll, info['folding'], info['derivation'], int(keep.sum()), want_ll), inp)
+            if md[both].sum() > 0:
+                sc = float(dd[both].sum() / md[both].sum())
+                want_mn = float(np.sum(-sc * md[keep] + dd[keep] * np.log(sc * md[keep]) - gammaln(dd[keep] + 1.)))
+                got_sc = float(call(I.optimal_sfs_scaling, model, data)); got_mn = float(call(I.ll_multinom, model, data))
+                if abs(got_sc - sc) > 1e-9 * max(1.0, abs(sc)):
+                    chk.fail('llmask:scaling', 'optimal_sfs_scaling(model, data) = %r, data/model over the jointly unmasked bins is %r' % (got_sc, sc), inp)
+                if np.isfinite(want_mn) and abs(got_mn - want_mn) > 1e-9 * max(1.0, abs(want_mn)):
+                    chk.fail('llmask:ll_multinom:value', 'll_multinom(model, data) = %r, direct sum over the %d jointly unmasked bins with the optimally '
+                             'scaled model is %r' % (got_mn, int(keep.sum()), want_mn), inp)
+        except Exception as e:
+            chk.fail('llmask:ll:raises:%s' % type(e).__name__, 'll / ll_multinom / optimal_sfs_scaling raises %r' % (e,), inp)
+    else:
+        chk.stat('llmask:no-jointly-unmasked-bin')
+    survives(chk, 'llmask:mutates', 'likelihood family on %s spectra (%s)' % (info['folding'], info['derivation']), inp,
+             [('model', model, st_m), ('data', data, st_d)])
 
 def guarded(chk, key, inp, f, *a):
     """run one oracle; an exception that escapes it comes from an operation the property says must work (copy, fold of a copy,
@@ -1039,6 +1297,12 @@ def run(chk, ctx):
                 'symmetric (mostly NOT mirror-symmetric), data masks incl. extra masked entries after folding, each function on fresh '
                 'objects in the sequence unfolded data, folded data, folded model, folded data again, unfolded data again; every operand of '
                 'every operation deep-snapshotted before and compared after (data under the mask, mask, folded, pop_ids). '
+                'round 7: arithmetic (all templates x operand kinds, binary vs in-place twin), unary/log and the likelihood family also on DERIVED '
+                'spectra, folded 2 of 3: views fs[:k], fs[k:], strided, inner, two axes, single rows (unlabelled), copies after unmask_all(), '
+                'open corners (hand-edited and mask_corners=False), entries beyond the fold unmasked, slice then unmask_all; log(): mask exactly '
+                'operand mask | (x <= 0); likelihood masks: model and data of one folding status (unfolded / fold() results / declared folded with '
+                'positive data everywhere), independent masks with open corners, result mask == model.mask | data.mask | (model <= 0) and values by '
+                'direct sums; constructor on plain arrays x mask_corners x data_folded x check_folding: mask kept exactly (K + L3). '
                 'non-trivial = distinct (d, parity, mask kind, data kind, shape) for fold, (method, operand kind, d, folded, mismatch) for arithmetic')
     chk.unproved = ['IEEE round-off: the float implementation agrees with the exact model to 1e-9 relative (K), theorems are about exact rationals',
                     'aliasing between results and operands is not part of the value-level model: only the `copy` flag of the binary template is translated (C09_arith_fresh); shares_memory and mutate-after checks are L3',
@@ -1148,23 +1412,30 @@ def run(chk, ctx):
                 folded_self = rng.random() < 0.5
                 if folded_self: fs0, info = gen_folded(rng, dadi, d, tier)
                 else: fs0, info = gen_unfolded(rng, dadi, d, tier)
-                fs = prep_self_for(rng, fs0, base_np, refl, inplace)
-                mismatch = okind == 'Sx'
-                ok_ = 'S' if mismatch else okind
-                other = gen_operand(rng, dadi, fs, ok_, mismatch, base_np)
-                if base_np in ('truediv', 'floordiv') and not refl and ok_ != 'C':
-                    od = other.data if ok_ in 'SM' else other
-                    od[od == 0] = 1.0
-                chk.stat('arith:operand:' + okind)
-                inp = dict(method=name, fs=describe(fs), other_kind=okind,
-                           other=describe(other) if ok_ == 'S' else (float(other) if ok_ == 'C' else dict(
-                               data=np.asarray(getattr(other, 'data', other), dtype=float), mask=np.ma.getmaskarray(other).astype(int))))
-                guarded(chk, 'arith:' + name, inp, l3_arith, chk, ctx, name, fs, other, ok_, info)
-                tgt = fs.copy()
-                line = 'c09.%s %s %s %s' % ('inplace' if inplace else 'binop', name, fs_toks(fs), operand_toks(other, ok_))
-                k_compare(chk, ('inplace:' if inplace else 'binop:') + name, inp, lambda: getattr(tgt, name)(other), line, driver)
-                if inplace:
-                    k_inplace_self(chk, 'inplace-self:' + name, name, fs, tgt, other, ok_, inp, driver)
+                arith_case(chk, ctx, rng, name, okind, fs0, info)
+    # ---- round 7: the same for every spectrum the API can produce — slices / views (leading, trailing, strided, inner, two axes,
+    #      single rows), spectra after unmask_all(), open corners, hand-edited masks beyond the fold — folded (2 of 3) and unfolded
+    it = 0
+    OK_CYCLE = ['C', 'P', 'S', 'M', 'C', 'S', 'P', 'Sx']
+    for rep in range(5 if not thorough else 30):
+        for name in BINARY + INPLACE:
+            if name not in SYNTAX: continue
+            dk = DERIVATIONS[it % len(DERIVATIONS)]; okind = OK_CYCLE[(it // len(DERIVATIONS) + it) % len(OK_CYCLE)]
+            folded_self = (it // len(DERIVATIONS) + it) % 3 != 2; it += 1
+            d = int(rng.integers(1, 5))
+            if dk == 'row': d = max(d, 2)
+            if folded_self: fs0, info = gen_folded(rng, dadi, d, tier)
+            else: fs0, info = gen_unfolded(rng, dadi, d, tier)
+            if dk == 'row' and fs0.pop_ids is not None:
+                fs0 = fs0.copy(); fs0.pop_ids = None
+            kind, f = gen_derivation(rng, dadi, fs0.shape, fs0.pop_ids is not None, dk)
+            chk.stat('derived:%s:%s' % ('folded' if folded_self else 'unfolded', kind))
+            arith_case(chk, ctx, rng, name, okind, fs0, info, derive=f)
+            if it % 3 == 0:
+                g = f(fs0)
+                if g.size and np.ndim(g) > 0:
+                    guarded(chk, 'unary', describe(g), l3_unary, chk, ctx, g, info)
+    guarded(chk, 'ctor', {}, k_ctor, chk, ctx, rng, tier)
     # ---- automatic folding in the likelihood functions: K on the decision, L3 on values
     calls = []
     orig_fold = dadi.Spectrum.fold
@@ -1196,6 +1467,16 @@ def run(chk, ctx):
     for rep in range(6 if not thorough else 40):
         for d in range(1, 4 if not thorough else 5):
             guarded(chk, 'll', dict(d=d), l3_likelihood, chk, ctx, rng, d, tier)
+    # ---- round 7: masks survive likelihood evaluation, for model / data of one folding status derived in every way
+    it = 0
+    for rep in range(3 if not thorough else 20):
+        for dk in DERIVATIONS:
+            fkind = ['proper', 'unfolded', 'declared'][it % 3]; it += 1
+            d = 1 + (it % 3) if dk != 'row' else 2 + (it % 2)
+            def one(d=d, fkind=fkind, dk=dk):
+                model, data, info = gen_llmask_case(rng, dadi, d, tier, fkind, dk)
+                l3_llmask(chk, ctx, model, data, info)
+            guarded(chk, 'llmask', dict(d=d, folding=fkind, derivation=dk), one)
 
 def replay(chk, ctx, data):
     """re-evaluate the failing input: rebuild the spectrum and run the oracle that produced the key"""
@@ -1221,6 +1502,18 @@ def replay(chk, ctx, data):
                 arr = np.array(o['data']['data']).reshape(o['data']['shape'])
                 other = arr if ok_ == 'P' else np.ma.masked_array(arr, mask=np.array(o['mask']['data']).reshape(o['mask']['shape']).astype(bool))
             l3_arith(chk, ctx, inp['method'], fs, other, ok_, dict(d=fs.ndim)); return
+        if key.startswith('llmask') and 'model' in inp and 'data' in inp:
+            l3_llmask(chk, ctx, rebuild(dadi, inp['model']), rebuild(dadi, inp['data']), dict(folding='replay', derivation='replay')); return
+        if key.startswith('ctor') and 'mask_corners' in inp:
+            def arr(o): return np.array(o['data']).reshape(o['shape']) if isinstance(o, dict) else np.array(o)
+            r = dadi.Spectrum(arr(inp['data']).astype(float), mask=arr(inp['mask']).astype(bool), mask_corners=inp['mask_corners'],
+                              data_folded=inp['folded'], check_folding=inp['check_folding'], pop_ids=inp['pop_ids'])
+            want = arr(inp['mask']).astype(bool)
+            if inp['mask_corners']: want.flat[0] = True; want.flat[-1] = True
+            chk.l3(('ctor', 'replay'))
+            if not np.array_equal(np.ma.getmaskarray(r), want):
+                chk.fail(key, 'Spectrum(...): the mask of the result is not the mask passed (plus corners iff mask_corners)', inp)
+            return
         if key.startswith('ll') and 'model' in inp and 'data_unfolded' in inp:
             l3_likelihood_case(chk, ctx, rebuild(dadi, inp['model']), rebuild(dadi, inp['data_unfolded']), rebuild(dadi, inp['data']),
                                dict(model_mask='replay', data_mask='replay')); return
